@@ -12,7 +12,7 @@ ID = "C05"
 READY = True
 LEVEL = "exploration"
 WORKERS = {"quick": 8, "thorough": 16}
-BUDGET = {"quick": 60, "thorough": 480}
+BUDGET = {"quick": 150, "thorough": 480}
 MIN_NONTRIVIAL = {"quick": 100, "thorough": 600}
 REQUIRED_HOOKS = ["history", "evaluate", "reference(zygote)", "bindings-snapshot", "re-evaluation", "fresh-process-crosscheck", "generated-program-evaluation"]
 RULE = (
